@@ -462,7 +462,47 @@ def rule_f(ctx, out):
             out.ok({"scan": short(l.test, 40), "bounded_by": sorted(tv)})
 
 
+def rule_g(ctx, out):
+    """are_dependent_variables is the last test before the order edge between two stores of equal value is dropped; it must say
+    "dependent" whenever the two addresses are not provably the same and not both constants.  Decided by abstract evaluation of
+    the function's AST (own interpreter, nothing imported) over one representative per class of address pair; stack variables are
+    named s(N) by the front-end (assumption), which matters because the function inspects the names."""
+    from ..core.interp import ModuleInterp
+    from ..core.minieval import Unsupported, Raised
+    f = ctx.func(f"{GO}.are_dependent_variables")
+    mi = ModuleInterp(ctx)
+    env = mi.module_env(GO)
+    cases = [
+        # (description, u_dict, v1, v2, expected)
+        ("two different input variables", {}, "s(0)", "s(1)", True),
+        ("two different input variables, other digits", {}, "s(3)", "s(12)", True),
+        ("input variable vs computed address", {"s(5)": (("s(1)", 32), "+")}, "s(0)", "s(5)", True),
+        ("address computed from the other address", {"s(5)": (("s(1)", 32), "+")}, "s(5)", "s(1)", True),
+        ("address computed from the other address (swapped)", {"s(5)": (("s(1)", 32), "+")}, "s(1)", "s(5)", True),
+        ("two addresses sharing an operand", {"s(5)": (("s(1)", 32), "+"), "s(6)": (("s(1)", 64), "+")}, "s(5)", "s(6)", True),
+        ("constant vs variable", {}, 64, "s(1)", True),
+        ("variable vs constant", {}, "s(1)", 64, True),
+        ("same variable", {}, "s(2)", "s(2)", False),
+        ("two constants", {}, 0, 64, False),
+    ]
+    for desc, ud, v1, v2, exp in cases:
+        env["u_dict"] = dict(ud)
+        try:
+            got = mi.call(f, v1, v2)
+        except (Unsupported, Raised) as e:
+            raise AnalysisError(f"cannot evaluate are_dependent_variables({v1!r}, {v2!r}): {e}")
+        if bool(got) == exp:
+            out.ok({"case": desc, "v1": v1, "v2": v2, "result": bool(got)})
+        elif exp:
+            out.bad(f"are_dependent_variables:independent:{desc}", f"are_dependent_variables({v1!r}, {v2!r}) with u_dict = {ud} answers {got!r}: {desc} may denote "
+                    f"overlapping locations, and the order edge between two equal-valued stores is dropped on this answer", where(f), {"u_dict": repr(ud)})
+        else:
+            out.ok({"case": desc, "result": bool(got), "note": "stricter than required"})
+    env.pop("u_dict", None)
+
+
 RULES = [
+    ("C02.g", "different address terms are dependent", 10, rule_g),
     ("C02.e", "unification windows cover every access between the two unified ones", 2, rule_e),
     ("C02.f", "dependence scans are exhaustive", 5, rule_f),
     ("C02.a", "alias decision over-approximates byte overlap", 3000, rule_a),
